@@ -230,8 +230,8 @@ mtbl_writer_add(struct mtbl_writer *w,
 		}
 	}
 
-	size_t estimated_block_size = block_builder_current_size_estimate(w->data);
-	estimated_block_size += 3*5 + len_key + len_val;
+	size_t estimated_block_size =
+		block_builder_size_estimate_with(w->data, 3*5 + len_key + len_val);
 
 	if (estimated_block_size >= w->opt.block_size) {
 		bytes_shortest_separator(w->last_key, key, len_key);
